@@ -79,3 +79,12 @@ Example C06_ex :
     [({| ak_sp := protocol_ibc; ak_sc := "channel-0"; ak_dst := "4:noble"; ak_denom := "ufoo" |}, (0, 488));
      ({| ak_sp := protocol_ibc; ak_sc := "channel-0"; ak_dst := "4:noble"; ak_denom := "uusdc" |}, (1000, 0))].
 Proof. vm_compute. repeat split; reflexivity. Qed.
+
+(* ---------- on ANY chain, whatever its Hyperlane hooks charge for gas: a payload that is executed runs the same
+   external calls in the same order as on the chain without charging hooks, where the theorems above order them ---------- *)
+From Orbiter Require Import Proofs.GasHistories.
+Theorem C06_any_hooks : forall g cfg e w p tape,
+  rr_out (recv_gas g cfg e w p tape 0) = OAckOk ->
+  rr_out (recv cfg e w p tape) = OAckOk /\ rr_trace (recv_gas g cfg e w p tape 0) = rr_trace (recv cfg e w p tape).
+Proof. exact success_trace_hooks. Qed.
+Print Assumptions C06_any_hooks.
